@@ -328,6 +328,13 @@ class P:
                 rhs = self.expr(); self.eat(";")
                 stmts.append(("assign", op, e, rhs)); continue
             if self.opt(";"):
+                if e[0] == "call" and e[1][-2:] == ["mem", "swap"] and len(e[2]) == 2 and all(a[0] == "path" and len(a[1]) == 1 for a in e[2]):
+                    # `mem::swap(&mut a, &mut b);` on two local variables = exchange of their values
+                    a, b = e[2]
+                    stmts.append(("let", ("pvar", "swap_tmp"), None, a))
+                    stmts.append(("assign", "=", a, b))
+                    stmts.append(("assign", "=", b, ("path", ["swap_tmp"])))
+                    continue
                 stmts.append(("expr", e)); continue
             if self.at("}"):
                 tail = e
@@ -628,7 +635,7 @@ class Emit:
                 return ("Option", rt)
             if m in ("unsigned_abs",):
                 return "u" + rt[1:]
-            if m == "leading_zeros":
+            if m in ("leading_zeros", "trailing_zeros"):
                 return "u32"
             if m in ("is_negative", "is_positive"):
                 return "bool"
@@ -655,6 +662,8 @@ class Emit:
             n = e[1][-1]
             if e[1] == ["RoundingMode", "default"]:
                 return "RoundingMode"
+            if e[1] in (["min"], ["max"], ["cmp", "min"], ["cmp", "max"]):
+                return self.type_of(e[2][0], hint)
             if n == "Some":
                 return ("Option", self.type_of(e[2][0]))
             if n in ("Ok", "Err"):
@@ -951,7 +960,8 @@ class Emit:
             return ls + [f"let {v} ← Rt.shl {bits(t)} prof ({xa}) ({xb})"], v
         if op == ">>":
             if signed(t):
-                raise Unsupported(">> on signed")
+                v = self.fresh()       # arithmetic shift; overflow check on the shift amount only
+                return ls + [f"let {v} ← Rt.shrI IntTy.{t} prof ({xa}) ({xb})"], v
             if b[0] == "lit" and b[1] < bits(t):
                 return ls, f"(({xa}) >>> {xb})"
             v = self.fresh()
@@ -1015,6 +1025,10 @@ class Emit:
             return ls, f"(Int.sign ({xr}))"
         if m == "leading_zeros" and isinstance(t, str) and t in INT_TYPES and not signed(t):
             return ls, f"(leadingZeros {bits(t)} ({xr}))"
+        if m == "trailing_zeros" and isinstance(t, str) and t in INT_TYPES and not signed(t):
+            return ls, f"(trailingZeros {bits(t)} ({xr}))"
+        if m == "trailing_zeros" and isinstance(t, str) and t in INT_TYPES and signed(t):
+            return ls, f"(Rt.tzI IntTy.{t} ({xr}))"     # of the two's-complement bit pattern
         if m == "pow" and isinstance(t, str) and t in INT_TYPES and signed(t):
             v = self.fresh()
             return ls + [f"let {v} ← {self.plain(t, f'({xr}) ^ ({xs[0]})')}"], v
@@ -1064,6 +1078,11 @@ class Emit:
             return ls + [f"let {v} ← K.{target} prof {tm}" + " ".join(xs)], v
         if len(path) == 2 and path[0] in INT_TYPES and re.match(r"(checked|wrapping|saturating)_", n) and len(args) == 2:
             return self.method(("method", ("cast", args[0], path[0]) if False else args[0], n, args[1:]), hint)
+        if path in (["min"], ["max"], ["cmp", "min"], ["cmp", "max"]) and len(args) == 2:
+            t = self.type_of(args[0], hint)
+            la, xa = self.ex(args[0], t)
+            lb, xb = self.ex(args[1], t)
+            return la + lb, f"({n} ({xa}) ({xb}))"
         if path == ["RoundingMode", "default"]:
             self.needs_tm = True
             return [], "tm"
@@ -1557,12 +1576,12 @@ class Emit:
 
 
 # ----------------------------------------------------------------------------- driver
-GROUP_IMPORTS = {"KPow": ["Fpdec.Gen.Consts"], "KDivRounded": ["Fpdec.Gen.KRound", "Fpdec.Gen.KPow", "Fpdec.Model.Core"],
+GROUP_IMPORTS = {"KRatio": ["Fpdec.Gen.KPow", "Fpdec.Model.Decimal"], "KPow": ["Fpdec.Gen.Consts"], "KDivRounded": ["Fpdec.Gen.KRound", "Fpdec.Gen.KPow", "Fpdec.Model.Core"],
                  "KDecDiv": ["Fpdec.Gen.KDivRounded"], "KDecMul": ["Fpdec.Gen.KDivRounded", "Fpdec.Model.Decimal"], "KNorm": [], "KFromStr": ["Fpdec.Gen.KPow", "Fpdec.Gen.Consts", "Fpdec.Model.Parser"], "KIntoFloat": ["Fpdec.Gen.Consts", "Fpdec.Model.Decimal"], "KIntOps": ["Fpdec.Gen.KDecDiv", "Fpdec.Gen.KNorm", "Fpdec.Gen.Consts", "Fpdec.Model.Decimal"], "KForward": ["Fpdec.Gen.KAddSub", "Fpdec.Gen.KDecOps"], "KIntConv": ["Fpdec.Gen.KPow", "Fpdec.Model.Decimal"], "KCmp": ["Fpdec.Gen.KPow", "Fpdec.Model.Decimal"], "KAddSub": ["Fpdec.Gen.KPow", "Fpdec.Model.Decimal"], "KDecUnops": ["Fpdec.Gen.KUnops", "Fpdec.Gen.KPow", "Fpdec.Model.Decimal"], "KDecOps": ["Fpdec.Gen.KDecDiv", "Fpdec.Gen.KDecMul", "Fpdec.Gen.KNorm", "Fpdec.Gen.Consts", "Fpdec.Model.Decimal"],
                  "KDecRound": ["Fpdec.Gen.KDivRounded", "Fpdec.Model.Decimal"],
                  "KFloat": ["Fpdec.Gen.KNorm", "Fpdec.Gen.Consts", "Fpdec.Model.Core", "Fpdec.Model.Decimal"], "KRem": ["Fpdec.Gen.KPow"], "KDecRem": ["Fpdec.Gen.KRem", "Fpdec.Model.Decimal"],
                  "KWideDiv": ["Fpdec.Gen.KWide", "Fpdec.Gen.KPow", "Fpdec.Gen.Consts", "Fpdec.Model.Core"]}
-LOOP_FUEL.update({("normalize", 1): 256, ("approx_rational", 1): 32, ("rem", 1): 256,
+LOOP_FUEL.update({("gcd_special", 1): 600, ("normalize", 1): 256, ("approx_rational", 1): 32, ("rem", 1): 256,
                   ("u256_idiv_u128_special_k", 1): 340282366920938463463374607431768211457,
                   ("u256_idiv_u128_special_k", 2): 340282366920938463463374607431768211457})
 KERNELS = [
@@ -1587,6 +1606,12 @@ KERNELS = [
      {"as": "i64_try_from_decimal", "err": "TryFromDecimalError", "macro": ("impl_int_from_dec", 1, 0, {"$t": "i64"})}),
     ("KCmp", "src/binops/cmp.rs", "eq", "Decimal", {"as": "decimal_eq", "macro": ("impl_partial_eq", 0, 0, None)}),
     ("KCmp", "src/binops/cmp.rs", "partial_cmp", "Decimal", {"as": "decimal_partial_cmp", "macro": ("impl_partial_ord", 0, 0, None)}),
+    ("KCmp", "src/binops/cmp.rs", "eq", "Decimal", {"as": "decimal_eq_uint", "macro": ("impl_decimal_eq_uint", 1, 0, {"$t": "u64"})}),
+    ("KCmp", "src/binops/cmp.rs", "eq", "Decimal", {"as": "decimal_eq_sint", "macro": ("impl_decimal_eq_signed_int", 1, 0, {"$t": "i64"})}),
+    ("KCmp", "src/binops/cmp.rs", "partial_cmp", "Decimal", {"as": "decimal_cmp_sint", "macro": ("impl_decimal_cmp_signed_int", 1, 0, {"$t": "i64"})}),
+    ("KCmp", "src/binops/cmp.rs", "partial_cmp", "i64", {"as": "sint_cmp_decimal", "macro": ("impl_signed_int_cmp_decimal", 1, 0, {"$t": "i64"})}),
+    ("KCmp", "src/binops/cmp.rs", "partial_cmp", "Decimal", {"as": "decimal_cmp_uint", "macro": ("impl_decimal_cmp_uint", 1, 0, {"$t": "u64"})}),
+    ("KCmp", "src/binops/cmp.rs", "partial_cmp", "u64", {"as": "uint_cmp_decimal", "macro": ("impl_uint_cmp_decimal", 1, 0, {"$t": "u64"})}),
     ("KAddSub", "src/binops/add_sub.rs", "coeff_or_panic", None),
     ("KAddSub", "src/binops/add_sub.rs", "$method", "Decimal", {"as": "decimal_add", "macro": ("impl_add_sub_decimal", 0, 0, None)}),
     ("KAddSub", "src/binops/add_sub.rs", "$method", "Decimal", {"as": "decimal_sub", "macro": ("impl_add_sub_decimal", 0, 1, None)}),
@@ -1621,6 +1646,10 @@ KERNELS = [
     ("KRem", "src/binops/rem.rs", "rem", None),
     ("KDecRem", "src/binops/rem.rs", "rem", "Decimal", {"occ": 1, "as": "decimal_rem"}),
     ("KDecRem", "src/binops/checked_rem.rs", "checked_rem", "Decimal", {"as": "decimal_checked_rem", "ret": ("Option", "Decimal")}),
+    ("KRatio", "src/as_integer_ratio.rs", "gcd_special", None),
+    ("KRatio", "src/as_integer_ratio.rs", "as_integer_ratio", "Decimal", {"occ": 1, "as": "decimal_as_integer_ratio"}),
+    ("KRatio", "src/as_integer_ratio.rs", "numerator", "Decimal", {"occ": 1, "as": "decimal_numerator"}),
+    ("KRatio", "src/as_integer_ratio.rs", "denominator", "Decimal", {"occ": 1, "as": "decimal_denominator"}),
     ("KFloat", "src/from_float.rs", "f64_decode", None),
     ("KFloat", "src/from_float.rs", "f32_decode", None),
     ("KFloat", "src/from_float.rs", "try_from", "Decimal", {"occ": 0, "as": "try_from_f32"}),
